@@ -141,6 +141,30 @@ fn segment(spec: &'static LangSpec) -> BoxedStrategy<String> {
                 .boxed(),
         ));
     }
+    if nline > 0 {
+        // a comment with a fenced code example: closed, still open (the state while typing it),
+        // followed by more prose or not
+        opts.push((
+            2,
+            (0..nline, super::sentence(), sel_str(&["```", "```rust", "~~~", "``` "]), 0u8..4, super::sentence())
+                .prop_map(move |(i, a, fence, shape, b)| {
+                    let lc = spec.line[i];
+                    let mut lines = vec![format!("{lc} {}", a.replace('\n', " ")), format!("{lc} {fence}"), format!("{lc} let x = 1;")];
+                    if shape >= 1 {
+                        lines.push(format!("{lc} ```"));
+                    }
+                    if shape >= 2 {
+                        lines.push(format!("{lc} {}", b.replace('\n', " ")));
+                    }
+                    if shape == 3 {
+                        lines.push(format!("{lc} {fence}"));
+                        lines.push(format!("{lc} y"));
+                    }
+                    lines.join("\n")
+                })
+                .boxed(),
+        ));
+    }
     opts.push((1, Just(String::new()).boxed()));
     // language-specific directives and markers inside comments
     let specials: &'static [&'static str] = match spec.id {
